@@ -82,6 +82,13 @@ func runC14(c *core.Ctx) {
 	c.Rule("R2", "lifecycle ordering: started flag before spawn, effect then close; StartWithVal enqueues before Start; DoNotation/YieldFromIO assign before Done and Wait before return", 4)
 	yr := p.Method(p.Fpgo, "CorDef", "YieldRef")
 	yf := p.Method(p.Fpgo, "CorDef", "YieldFrom")
+	// an entry point that only hands its parameters on to a more general form (`YieldFromWithOk`) is read there
+	if yr != nil {
+		yr = core.SameParamsImpl(p, yr)
+	}
+	if yf != nil {
+		yf = core.SameParamsImpl(p, yf)
+	}
 	rc := p.Method(p.Fpgo, "CorDef", "receive") // may have been inlined into its callers
 	if yr == nil || yf == nil {
 		c.Unknown("R1", "anchors", "-", "YieldRef/YieldFrom not found")
@@ -411,7 +418,33 @@ func runC14(c *core.Ctx) {
 	}
 	// the signalling closure: the one closure of the method that calls Done()
 	callsDone := func(ins ssa.Instruction) bool { return c14isSignal(ins) }
-	if dn := p.Method(p.Fpgo, "CorDef", "DoNotation"); dn == nil || core.ClosureContaining(dn, callsDone) == nil {
+	// an exported method that only hands (some of) its parameters on to an unexported function doing the work is read there;
+	// role is the parameter of that function receiving the method's i-th parameter
+	thinImpl := func(f *ssa.Function, i int) (*ssa.Function, *ssa.Parameter) {
+		if f == nil || i >= len(f.Params) {
+			return f, nil
+		}
+		role := f.Params[i]
+		for depth := 0; depth < 2; depth++ {
+			tgt, call := core.ThinTarget(p, f)
+			if tgt == nil || tgt == f {
+				break
+			}
+			var next *ssa.Parameter
+			for j, a := range call.Call.Args {
+				if core.Resolve(a) == ssa.Value(role) && j < len(tgt.Params) {
+					next = tgt.Params[j]
+				}
+			}
+			if next == nil {
+				break
+			}
+			f, role = tgt, next
+		}
+		return f, role
+	}
+	dn, dnEffect := thinImpl(p.Method(p.Fpgo, "CorDef", "DoNotation"), 1)
+	if dn == nil || core.ClosureContaining(dn, callsDone) == nil {
 		c.Unknown("R2", "CorDef.DoNotation", "-", "method or closure not found")
 	} else {
 		c.Analysed(core.FuncName(dn))
@@ -423,11 +456,12 @@ func runC14(c *core.Ctx) {
 				return false
 			}
 			call, isC := core.Resolve(st.Val).(*ssa.Call)
-			return isC && core.Callee(&call.Call) == nil && capturedBinding(dn, dcl, core.Path(call.Call.Value)) == ssa.Value(dn.Params[1])
+			return isC && core.Callee(&call.Call) == nil && capturedBinding(dn, dcl, core.Path(call.Call.Value)) == ssa.Value(dnEffect)
 		}, "fpgo.CorDef.Start")
 		c.Check(ok, "R2", "CorDef.DoNotation", p.Pos(dn.Pos()), detail, detail)
 	}
-	if yio := p.Method(p.Fpgo, "CorDef", "YieldFromIO"); yio == nil || core.ClosureContaining(yio, callsDone) == nil {
+	yio, _ := thinImpl(p.Method(p.Fpgo, "CorDef", "YieldFromIO"), 1)
+	if yio == nil || core.ClosureContaining(yio, callsDone) == nil {
 		c.Unknown("R2", "CorDef.YieldFromIO", "-", "method or closure not found")
 	} else {
 		c.Analysed(core.FuncName(yio))
